@@ -574,11 +574,10 @@ class GotWantException(AssertionError):
                     got = utils.color_text(got, 'red')
                     want = utils.color_text(want, 'red')
                 text = 'Expected:\n{}\nGot nothing\n'.format(utils.indent(want))
-            elif got:  # nocover
-                raise AssertionError('impossible state')
+            elif got:
+                # the want can normalize to nothing (e.g. a lone <BLANKLINE>)
                 text = 'Expected nothing\nGot:\n{}'.format(utils.indent(got))
-            else:  # nocover
-                raise AssertionError('impossible state')
+            else:
                 text = 'Expected nothing\nGot nothing\n'
         return text
 
